@@ -48,3 +48,4 @@ def register(w):
     w.fields("BaseGopherProtocol", accesskeyidx="int", postfieldidx="int")
     w.fields("WFile", written="bytes")
     w.fields("RFile", content="bytes", pos="nat")
+    w.fields("TFile", content="str", pos="nat")
